@@ -20,6 +20,9 @@ pub enum After {
     Cleanup,
     /// sweep with wait-graph cleanup
     CleanupGraph,
+    /// one of the pre-sleep transactions (whose locks expired) finishes late: release by transaction id.
+    /// Keys that another transaction took over meanwhile must stay with their new holder.
+    ReleaseOld(u8),
 }
 
 #[derive(Clone, Debug, Serialize, Deserialize)]
@@ -34,13 +37,14 @@ pub fn exp_strategy(_t: Tier) -> impl Strategy<Value = ExpCase> {
         3 => (prop::collection::vec(0..NKEYS, 1..=4), any::<bool>()).prop_map(|(keys, track)| After::Steal { keys, track }),
         1 => Just(After::Cleanup),
         2 => Just(After::CleanupGraph),
+        3 => (0u8..5).prop_map(After::ReleaseOld),
     ];
     (prop::collection::vec((0u8..5, prop::collection::vec(0..NKEYS, 1..=3), any::<bool>()), 1..8), prop::collection::vec(after, 1..4))
         .prop_map(|(before, after)| ExpCase { before, after })
 }
 
 pub fn exp_check(c: &ExpCase, ctx: &mut CaseCtx) -> Result<(), Fail> {
-    let lm = LockManager::with_default_timeout(Duration::from_millis(15));
+    let lm = LockManager::with_default_timeout(Duration::from_millis(60));
     let wg = WaitForGraph::new();
     let mut any_granted = false;
     let mut any_edge = false;
@@ -51,18 +55,20 @@ pub fn exp_check(c: &ExpCase, ctx: &mut CaseCtx) -> Result<(), Fail> {
         any_granted |= ok;
         any_edge |= *track && !ok;
     }
-    std::thread::sleep(Duration::from_millis(40));
-    // every entry of the table is now >= 40 ms old
+    std::thread::sleep(Duration::from_millis(100));
+    // every entry of the table is now >= 100 ms old
     for k in 0..NKEYS {
         if let Some(t) = lm.lock_holder(&key(k)) {
-            ctx.fail("expired-lock-still-reported", format!("lock_holder(k{k}) = {t} 40 ms after a grant with a 15 ms timeout"))?;
+            ctx.fail("expired-lock-still-reported", format!("lock_holder(k{k}) = {t} 100 ms after a grant with a 60 ms timeout"))?;
         }
         if lm.is_locked(&key(k)) {
-            ctx.fail("expired-lock-still-reported", format!("is_locked(k{k}) 40 ms after a grant with a 15 ms timeout"))?;
+            ctx.fail("expired-lock-still-reported", format!("is_locked(k{k}) 100 ms after a grant with a 60 ms timeout"))?;
         }
     }
     let mut thief = 400u64;
     let t_after = std::time::Instant::now();
+    // key -> (new holder, when it was granted): filled on every successful takeover
+    let mut taken: std::collections::BTreeMap<u8, (u64, std::time::Instant)> = std::collections::BTreeMap::new();
     for a in &c.after {
         match a {
             After::Steal { keys, track } => {
@@ -74,11 +80,14 @@ pub fn exp_check(c: &ExpCase, ctx: &mut CaseCtx) -> Result<(), Fail> {
                 match r {
                     Ok(_) => {
                         ctx.label("expired lock taken over by another transaction");
-                        // the harness must stay well inside the thief's own 15 ms for the next read to be meaningful
-                        if t_after.elapsed() < Duration::from_millis(5) {
+                        for k in keys {
+                            taken.insert(*k, (thief, std::time::Instant::now()));
+                        }
+                        // the harness must stay well inside the thief's own 60 ms for the next read to be meaningful
+                        if t_after.elapsed() < Duration::from_millis(20) {
                             for k in keys {
                                 let h = lm.lock_holder(&key(*k));
-                                if t_after.elapsed() < Duration::from_millis(10) && h != Some(thief) {
+                                if t_after.elapsed() < Duration::from_millis(40) && h != Some(thief) {
                                     ctx.fail("takeover-not-effective", format!("tx {thief} was granted k{k} over an expired lock but lock_holder = {h:?}"))?;
                                 }
                             }
@@ -88,11 +97,34 @@ pub fn exp_check(c: &ExpCase, ctx: &mut CaseCtx) -> Result<(), Fail> {
                         // sound only if the blocker is one of the pre-sleep transactions (their locks are expired);
                         // a blocker that is an earlier thief holds a young lock and may legitimately block
                         if (301..=305).contains(&b) {
-                            ctx.fail("expired-lock-still-blocks", format!("tx {thief} was refused {keys:?} because of tx {b} whose locks expired >= 25 ms ago"))?;
+                            ctx.fail("expired-lock-still-blocks", format!("tx {thief} was refused {keys:?} because of tx {b} whose locks expired >= 40 ms ago"))?;
                         } else {
                             ctx.label("later taker blocked by an earlier taker (young lock)");
                         }
                     },
+                }
+            },
+            After::ReleaseOld(t) => {
+                let old = 301 + u64::from(*t % 5);
+                lm.release(old);
+                for (k, (holder, at)) in &taken {
+                    let h = lm.lock_holder(&key(*k));
+                    // the harness clock only decides whether the assertion is still meaningful: the new
+                    // holder's own lock is valid for 60 ms
+                    if at.elapsed() < Duration::from_millis(30) {
+                        if h != Some(*holder) {
+                            ctx.fail(
+                                "takeover-lock-released-by-old-holder",
+                                format!("tx {holder} took over k{k} after tx {old}'s lock expired; releasing tx {old} by id left lock_holder(k{k}) = {h:?}"),
+                            )?;
+                        } else {
+                            ctx.label("late release of an expired holder left the new holder's lock alone");
+                            ctx.set_nontrivial();
+                        }
+                    }
+                }
+                if !lm.keys_for_transaction(old).is_empty() {
+                    ctx.fail("released-tx-still-indexed", format!("release({old}) left keys_for_transaction = {:?}", lm.keys_for_transaction(old)))?;
                 }
             },
             After::Cleanup | After::CleanupGraph => {
@@ -102,7 +134,7 @@ pub fn exp_check(c: &ExpCase, ctx: &mut CaseCtx) -> Result<(), Fail> {
                 let old_entries = snapshot.locks().values().filter(|l| (301..=305).contains(&l.tx_id)).count();
                 let n = if with_graph { lm.cleanup_expired_with_wait_cleanup(&wg) } else { lm.cleanup_expired() };
                 if n < old_entries {
-                    ctx.fail("expired-lock-not-swept", format!("sweep removed {n} locks, {old_entries} entries were >= 40 ms old with a 15 ms timeout"))?;
+                    ctx.fail("expired-lock-not-swept", format!("sweep removed {n} locks, {old_entries} entries were >= 100 ms old with a 60 ms timeout"))?;
                 }
                 let left = lm.to_serializable();
                 for l in left.locks().values() {
